@@ -315,7 +315,9 @@ struct Obs {
 fn observe(s: &Scenario, r: &RunResult) -> Obs {
     let json = s.argv.iter().any(|a| a == "json");
     let diags = parse_diagnostics(&r.stderr, json);
-    let compile_errors: Vec<&Diag> = diags.iter().filter(|d| d.error && !is_generator_phase(d)).collect();
+    let meta: Meta15 = serde_json::from_value(s.meta.clone()).unwrap_or_default();
+    let reply_paths = crate::hostcase::reply_paths_of(&r.trace);
+    let compile_errors: Vec<&Diag> = diags.iter().filter(|d| d.error && !is_generator_phase(d, &meta.generators, &reply_paths)).collect();
     // a warning is identified by its code, its message and the place it points at (file NAME, row, column: the
     // directory part changes when a file moves between the lists)
     let mut warnings: Vec<String> = diags
@@ -326,8 +328,13 @@ fn observe(s: &Scenario, r: &RunResult) -> Obs {
             if d.code == "DuplicateFile" {
                 // which of two spellings of one file counts as "the duplicate" legitimately depends on the order
                 // (and on the list the file is in after a move): identify the warning by the file it is about
-                let name = d.message.rsplit('/').next().unwrap_or("").trim_end_matches('\'').to_owned();
-                let name = name.rsplit('\'').next().unwrap_or("").to_owned();
+                let name = d
+                    .message
+                    .split(|c: char| c == '\'' || c == '"' || c == '`' || c.is_whitespace())
+                    .map(|t| t.trim_matches(|c: char| matches!(c, ':' | ',' | ';' | '(' | ')')))
+                    .find(|t| t.ends_with(".slice"))
+                    .map(|t| t.rsplit('/').next().unwrap_or("").to_owned())
+                    .unwrap_or_default();
                 return format!("DuplicateFile about {name}");
             }
             format!("{}: {} @ {}", d.code, d.message, loc)
